@@ -745,7 +745,7 @@ pub fn u_big(tier: Tier) -> Vec<Universe> {
     };
     // 1. many homographs of one surface: more than 16 / 32 / 256 nodes ending at one boundary
     for n in tier.pick(vec![17usize, 33, 257], vec![16, 17, 33, 255, 256, 257, 300]) {
-        let mut sys: Vec<Row> = (0..n).map(|i| row("a", 1 + (i % 2) as u16, 1 + ((i / 2) % 2) as u16, 200 + (i % 97) as i16, &format!("hom{i}"))).collect();
+        let mut sys: Vec<Row> = (0..n).map(|i| row("a", 1 + (i % 2) as u16, 1 + ((i / 2) % 2) as u16, 200 + (i % 97) as i16, &format!("hom{i},padding-padding-padding-{i}"))).collect();
         sys[n - 1].cost = 1; // the cheapest homograph is the last one
         sys[n / 2].cost = 2;
         sys.push(row("ab", 2, 1, 150, "ab"));
@@ -771,6 +771,31 @@ pub fn u_big(tier: Tier) -> Vec<Universe> {
         let r18 = vec![(0x20u32, 0x20u32, vec![1usize]), ('a' as u32, 'a' as u32, vec![16]), ('b' as u32, 'b' as u32, vec![17]), ('c' as u32, 'c' as u32, vec![17, 3]), ('d' as u32, 'd' as u32, vec![15, 16])];
         let u18: Vec<UnkRow> = (0..18).map(|i| unk(i, (i % 3) as u16, ((i + 1) % 3) as u16, 100 + i as i16, &format!("u{i}"))).collect();
         out.push(mk("big/categories-18".into(), c18, r18, u18, vec![row("ab", 1, 1, 70, "ab")], None, vec!['a', 'b', 'c', 'd', ' '], vec![]));
+    }
+    // 3b. many connection ids (more than 32 / 64 per side), one single-letter word per id pair
+    for (nr, nl) in [(34usize, 35usize), (66, 65)] {
+        let mut conn = vec![0i32; nr * nl];
+        for r in 0..nr {
+            for l in 0..nl {
+                conn[r * nl + l] = ((r * 31 + l * 17) % 23) as i32 - 11 + if r == nr - 1 && l == nl - 1 { 500 } else { 0 };
+            }
+        }
+        let letters: Vec<char> = "abcdefghijklmnopqrstuvwxyz".chars().collect();
+        let mut sys = vec![];
+        for i in 0..nr.max(nl) {
+            let s: String = if i < 26 { letters[i].to_string() } else { format!("{}{}", letters[i / 26], letters[i % 26]) };
+            sys.push(row(&s, (1 + i % (nl - 1)) as u16, (1 + (i * 7) % (nr - 1)) as u16, 20 + (i % 5) as i16, &format!("w{i}")));
+        }
+        sys.push(row("zz", (nl - 1) as u16, (nr - 1) as u16, 3, "last-ids"));
+        let mut u = mk(format!("big/conn-ids-{nr}x{nl}"), cats.clone(), ranges.clone(), vec![unk(0, 1, 1, 300, "U-DEFAULT"), unk(1, 0, 0, 50, "U-SPACE"), unk(2, (nl - 1) as u16, (nr - 1) as u16, 400, "U-AL"), unk(3, 2, 2, 90, "U-KJ")], sys, None, vec!['a', 'z'], vec!["abcdefghijklmnopqrstuvwxyz".to_string(), "zzazz".to_string(), "abacadaeafagahaiajakalamanaoapaqarasatauavawaxayaz".to_string()]);
+        u.dict.nr = nr;
+        u.dict.nl = nl;
+        u.dict.conn = conn;
+        out.push(u.clone());
+        // and with a reversing id mapping
+        u.name.push_str("/mapped");
+        u.mapping = Some(((1..nl as u16).rev().collect(), (1..nr as u16).map(|i| if usize::from(i) + 1 < nr { i + 1 } else { 1 }).collect()));
+        out.push(u);
     }
     // 4. long sentences on three small dictionaries
     let lens = tier.pick(vec![31usize, 32, 33, 64, 65, 255, 256, 257], vec![31, 32, 33, 34, 63, 64, 65, 127, 128, 129, 255, 256, 257, 300]);
